@@ -6,6 +6,7 @@ package main
 import (
 	"fmt"
 	"go/ast"
+	"go/token"
 	"go/types"
 	"strings"
 )
@@ -69,6 +70,17 @@ func (x *Exec) libraryModel(st *State, call *ast.CallExpr, c *callee, recv *T, a
 		return T{Tuple: []T{{S: ctx, Ty: rt(0)}, cancel}}, true
 	case "context.Background", "context.TODO":
 		return T{S: x.alloc(st, "ctx"), Ty: rt(0)}, true
+	}
+	if strings.HasPrefix(name, "sort.") {
+		switch name {
+		case "sort.Slice", "sort.SliceStable", "sort.Sort", "sort.Stable", "sort.Strings", "sort.Ints":
+			return x.sortModel(st, call, name, args)
+		}
+	}
+	if strings.HasPrefix(name, "math/rand.") {
+		if res, ok := x.randModel(st, call, name, recv, args, sig); ok {
+			return res, true
+		}
 	}
 	if strings.HasPrefix(name, "math/big.Int.") {
 		return x.bigModel(st, call, strings.TrimPrefix(name, "math/big.Int."), recv, args, sig)
@@ -393,4 +405,220 @@ func (x *Exec) checkGuard(st *State, stype types.Type, field, ref string, write 
 		return
 	}
 	x.oblige(st, fmt.Sprintf("guard:%s@%d", field, x.ordinal("guard:"+field)), "guard", "false", n)
+}
+
+// ---------------------------------------------------------------------------
+// sort and math/rand models (trusted; see DESIGN.md section 4)
+
+// sortTarget strips conversions like byAddress(xs) and returns the slice expression sorted in place.
+func (x *Exec) sortTarget(e ast.Expr) ast.Expr {
+	e = ast.Unparen(e)
+	if call, ok := e.(*ast.CallExpr); ok && len(call.Args) == 1 {
+		if tv, ok := x.info().Types[call.Fun]; ok && tv.IsType() {
+			return x.sortTarget(call.Args[0])
+		}
+	}
+	return e
+}
+
+// permFacts assumes that nw is a permutation of old (equal length, mutual containment).
+func (x *Exec) permFacts(st *State, nw, old string) {
+	st.assume(eq(slcLen(nw), slcLen(old)))
+	if slcOff(nw) != "0" {
+		st.assume(eq(slcOff(nw), "0"))
+	}
+	// explicit index maps in both directions (Skolem functions), triggered on element reads
+	fwd := x.d.freshName("perm_fwd")
+	bwd := x.d.freshName("perm_bwd")
+	x.d.declareFun(fwd, []string{"Int"}, "Int")
+	x.d.declareFun(bwd, []string{"Int"}, "Int")
+	// the two maps are mutually inverse (a bijection); the inverse equations also stop matching loops
+	st.assume(fmt.Sprintf("(forall ((i Int)) (! (=> (and (<= 0 i) (< i %s)) (and (<= 0 (%s i)) (< (%s i) %s) (= %s %s) (= (%s (%s i)) i))) :pattern (%s)))",
+		slcLen(nw), fwd, fwd, slcLen(old), slcAt(nw, "i"), slcAt(old, "("+fwd+" i)"), bwd, fwd, slcAt(nw, "i")))
+	st.assume(fmt.Sprintf("(forall ((j Int)) (! (=> (and (<= 0 j) (< j %s)) (and (<= 0 (%s j)) (< (%s j) %s) (= %s %s) (= (%s (%s j)) j))) :pattern (%s)))",
+		slcLen(old), bwd, bwd, slcLen(nw), slcAt(nw, "("+bwd+" j)"), slcAt(old, "j"), fwd, bwd, slcAt(old, "j")))
+}
+
+// lessIsElementOrder recognises `func(i, j int) bool { return s[i] < s[j] }` over the sorted slice.
+func (x *Exec) lessIsElementOrder(fn ast.Expr, target ast.Expr) (field string, ok bool) {
+	lit, isLit := ast.Unparen(fn).(*ast.FuncLit)
+	if !isLit || len(lit.Body.List) != 1 || lit.Type.Params == nil {
+		return "", false
+	}
+	ret, isRet := lit.Body.List[0].(*ast.ReturnStmt)
+	if !isRet || len(ret.Results) != 1 {
+		return "", false
+	}
+	be, isBin := ast.Unparen(ret.Results[0]).(*ast.BinaryExpr)
+	if !isBin || be.Op != token.LSS {
+		return "", false
+	}
+	var names []string
+	for _, f := range lit.Type.Params.List {
+		for _, n := range f.Names {
+			names = append(names, n.Name)
+		}
+	}
+	if len(names) != 2 {
+		return "", false
+	}
+	match := func(e ast.Expr, idx string) (string, bool) {
+		e = ast.Unparen(e)
+		fld := ""
+		if se, ok := e.(*ast.SelectorExpr); ok {
+			fld = se.Sel.Name
+			e = se.X
+		}
+		ie, ok := e.(*ast.IndexExpr)
+		if !ok {
+			return "", false
+		}
+		id, ok := ast.Unparen(ie.Index).(*ast.Ident)
+		if !ok || id.Name != idx {
+			return "", false
+		}
+		if types.ExprString(ie.X) != types.ExprString(target) {
+			return "", false
+		}
+		return fld, true
+	}
+	f1, ok1 := match(be.X, names[0])
+	f2, ok2 := match(be.Y, names[1])
+	if !ok1 || !ok2 || f1 != f2 {
+		return "", false
+	}
+	return f1, true
+}
+
+func (x *Exec) sortModel(st *State, call *ast.CallExpr, name string, args []T) (T, bool) {
+	target := x.sortTarget(call.Args[0])
+	tt := x.typeOf(target)
+	if tt == nil || !isSliceType(tt) {
+		return T{}, false
+	}
+	old := x.eval(st, target)
+	nw := x.d.freshConst("sorted", tt)
+	st.assume(x.rangeFact(nw))
+	x.permFacts(st, nw.S, old.S)
+	x.trust("sort.* leaves a permutation of its argument (equal length, same elements); sorted order only for recognised element orders")
+	elem := tt.Underlying().(*types.Slice).Elem()
+	ordered := false
+	switch name {
+	case "sort.Slice", "sort.SliceStable":
+		if fld, ok := x.lessIsElementOrder(call.Args[1], target); ok && fld == "" {
+			ordered = true
+		}
+	case "sort.Strings", "sort.Ints":
+		ordered = true
+	case "sort.Sort", "sort.Stable":
+		// a sort.Interface whose Less is element order: trusted per type via contract option
+		if ct := x.prog.sortLessIsOrder(x.typeOf(call.Args[0])); ct {
+			ordered = true
+		}
+	}
+	if ordered {
+		le := func(a, b string) string { return fmt.Sprintf("(<= %s %s)", a, b) }
+		if isStringType(elem) {
+			x.d.declareFun("lt_Str", []string{"Str", "Str"}, "Bool")
+			x.addUnitFact("(forall ((a Str) (b Str)) (! (=> (lt_Str a b) (not (lt_Str b a))) :pattern ((lt_Str a b))))")
+			x.addUnitFact("(forall ((a Str) (b Str)) (! (or (lt_Str a b) (lt_Str b a) (= a b)) :pattern ((lt_Str a b))))")
+			x.addUnitFact("(forall ((a Str) (b Str) (c Str)) (! (=> (and (lt_Str a b) (lt_Str b c)) (lt_Str a c)) :pattern ((lt_Str a b) (lt_Str b c))))")
+			le = func(a, b string) string { return fmt.Sprintf("(not (lt_Str %s %s))", b, a) }
+		}
+		if isIntType(elem) || isStringType(elem) {
+			st.assume(fmt.Sprintf("(forall ((i Int) (j Int)) (! (=> (and (<= 0 i) (< i j) (< j %s)) %s) :pattern (%s %s)))", slcLen(nw.S), le(slcAt(nw.S, "i"), slcAt(nw.S, "j")), slcAt(nw.S, "i"), slcAt(nw.S, "j")))
+		}
+	}
+	x.assign(st, target, nw)
+	return T{}, true
+}
+
+func (x *Exec) randModel(st *State, call *ast.CallExpr, name string, recv *T, args []T, sig *types.Signature) (T, bool) {
+	x.d.declareFun("rngseed", []string{"Int"}, "Int")
+	rt := func(i int) types.Type { return sig.Results().At(i).Type() }
+	switch name {
+	case "math/rand.NewSource":
+		x.trust("math/rand: a generator is a deterministic function of its seed (same algorithm on every node)")
+		r := x.alloc(st, "randsrc")
+		st.assume(eq(app("rngseed", r), args[0].S))
+		return T{S: r, Ty: rt(0)}, true
+	case "math/rand.New":
+		r := x.alloc(st, "rng")
+		st.assume(eq(app("rngseed", r), app("rngseed", args[0].S)))
+		if _, ok := x.d.heapSorts["cell_rngpos"]; !ok {
+			x.d.heapSorts["cell_rngpos"] = "(Array Int Int)"
+		}
+		st.heap["cell_rngpos"] = fmt.Sprintf("(store %s %s 0)", x.heapGet(st, "cell_rngpos"), r)
+		return T{S: r, Ty: rt(0)}, true
+	case "math/rand.Rand.Float64":
+		x.d.declareFun("rng_float", []string{"Int", "Int"}, "Flt")
+		k := x.drawCount(st, recv.S)
+		return T{S: app("rng_float", app("rngseed", recv.S), k), Ty: rt(0)}, true
+	case "math/rand.Rand.Intn", "math/rand.Rand.Int63n", "math/rand.Rand.Int31n":
+		x.d.declareFun("rng_intn", []string{"Int", "Int", "Int"}, "Int")
+		k := x.drawCount(st, recv.S)
+		v := T{S: app("rng_intn", app("rngseed", recv.S), k, args[0].S), Ty: rt(0)}
+		st.assume(fmt.Sprintf("(and (<= 0 %s) (< %s %s))", v.S, v.S, args[0].S))
+		return v, true
+	case "math/rand.Rand.Shuffle":
+		lit, ok := ast.Unparen(call.Args[1]).(*ast.FuncLit)
+		if !ok {
+			return T{}, false
+		}
+		target, ok := x.swapClosureTarget(lit)
+		if !ok {
+			x.fatalf("rand.Shuffle: swap closure is not a plain two-element swap of one slice at %s", x.pos(call))
+			return T{}, true
+		}
+		tt := x.typeOf(target)
+		old := x.eval(st, target)
+		sn := x.d.sortOf(tt)
+		fn := "rng_shuffle_" + sanitize(sn)
+		x.d.declareFun(fn, []string{"Int", "Int", sn}, sn)
+		k := x.drawCount(st, recv.S)
+		nw := x.d.freshConst("shuffled", tt)
+		st.assume(eq(nw.S, app(fn, app("rngseed", recv.S), k, old.S)))
+		st.assume(x.rangeFact(nw))
+		// Shuffle(n, swap) permutes the first n elements; used with n == len(slice)
+		st.assume(implies(eq(args[0].S, app("slc-len", old.S)), "true"))
+		x.permFacts(st, nw.S, old.S)
+		x.trust("rand.Shuffle(n, swap) with a plain swap closure yields a permutation that is a function of (seed, draw position, input slice)")
+		x.assign(st, target, nw)
+		return T{}, true
+	}
+	return T{}, false
+}
+
+// drawCount returns the current draw position of a generator and advances it.
+func (x *Exec) drawCount(st *State, rng string) string {
+	key := "cell_rngpos"
+	if _, ok := x.d.heapSorts[key]; !ok {
+		x.d.heapSorts[key] = "(Array Int Int)"
+	}
+	cur := fmt.Sprintf("(select %s %s)", x.heapGet(st, key), rng)
+	st.heap[key] = fmt.Sprintf("(store %s %s (+ %s 1))", x.heapGet(st, key), rng, cur)
+	return cur
+}
+
+// swapClosureTarget recognises func(i, j int) { s[i], s[j] = s[j], s[i] }.
+func (x *Exec) swapClosureTarget(lit *ast.FuncLit) (ast.Expr, bool) {
+	if len(lit.Body.List) != 1 {
+		return nil, false
+	}
+	as, ok := lit.Body.List[0].(*ast.AssignStmt)
+	if !ok || as.Tok != token.ASSIGN || len(as.Lhs) != 2 || len(as.Rhs) != 2 {
+		return nil, false
+	}
+	l0, ok0 := ast.Unparen(as.Lhs[0]).(*ast.IndexExpr)
+	l1, ok1 := ast.Unparen(as.Lhs[1]).(*ast.IndexExpr)
+	if !ok0 || !ok1 {
+		return nil, false
+	}
+	if types.ExprString(as.Lhs[0]) != types.ExprString(as.Rhs[1]) || types.ExprString(as.Lhs[1]) != types.ExprString(as.Rhs[0]) {
+		return nil, false
+	}
+	if types.ExprString(l0.X) != types.ExprString(l1.X) {
+		return nil, false
+	}
+	return l0.X, true
 }
